@@ -360,7 +360,7 @@ def write_evidence(pid, tier, seed, tot: Total, mod, ctx, wall, nviol, known):
         "traces_validated_against_impl": tot.validated,
         "evaluations": tot.n,
         "distinct_nontrivial": tot.nontrivial,
-        "rule": mod.RULE,
+        "rule": mod.RULE + ((" || scale families: " + mod.SCALE) if getattr(mod, "SCALE", None) else ""),
         "samples": samples,
         "exhaustive": not tot.caps_hit,
         "bounds": ctx.get("bounds", {}),
